@@ -267,6 +267,8 @@ HOSTILE_QUERIES = [
     'number=' + '1' * 100000, 'number=' + quote('<script>alert(1)</script>'), 'number=' + quote('"><img src=x onerror=1>'),
     'number=' + quote("' onmouseover='x"), 'number=' + quote('&lt;b&gt;'), 'number=' + quote('&#60;'), 'number=+1+2+3+', 'number=%20',
     'number=a;number=b', '&&&', '=', 'number==', 'number=%u0041', 'NUMBER=9780471117094', 'number[]=1',
+    # bytes sent without percent-encoding reach the application as latin-1 decoded text (PEP 3333)
+    'number=caf\xe9', 'number=\xe2\x82', 'number=\xff\xfe', 'number=\xe2\x82\xac9780471117094', 'number=9780471117094\x80', '\xc3=\xa9',
 ]
 
 
@@ -291,6 +293,20 @@ def req_work(shard, tier, viols, stats, counters, samples):
             for can in CANARIES + ['%%(%s)s' % CANARY]:
                 for p in gen.positions(len(v), 'quick', rng, extra=0)[:5 if tier == 'quick' else 9]:
                     queries.append(('canary:' + name, 'number=' + quote(v[:p] + can + v[p:])))
+        # inputs of the classes that make a validator leave with a stray exception (any one module doing so fails
+        # the whole request): date-forced candidates, foreign digits and letters, extreme field values
+        from vm import c12
+        mod = C.get_module(name)
+        stray = []
+        if name in c12.SLICES:
+            ds = c12.date_sources(name, mod, rng, 2, require_valid=False)
+            stray += rng.sample(ds, min(len(ds), 40 if tier == 'quick' else 600))
+        hs = [x for _cls, _pc, x in gen.hostile_strings(nums[:1], 'quick', rng) if len(x) < 200]
+        stray += rng.sample(hs, min(len(hs), 25 if tier == 'quick' else 400))
+        fe = C.synth_field_extremes(name, rng, k=1, raw=True, cap=60)
+        stray += rng.sample(fe, min(len(fe), 10 if tier == 'quick' else 200))
+        for v in stray:
+            queries.append(('stray:' + name, 'number=' + quote(v)))
     if shard['name'].endswith('00'):
         queries += [('hostile', q) for q in HOSTILE_QUERIES]
     rng.shuffle(queries)
